@@ -41,7 +41,71 @@ def default_canon(out):
     return _ERR_KIND.sub("ERR", _INVALID_N.sub("INVALID", out))
 
 
+class PairAware(object):
+    """`PAIR <line 1> || <line 2> ..` = several case lines executed one after the other by the same implementation thread (state that
+    survives between calls is shared); output = the outputs joined by ` || `.  The property module's judgement functions are applied
+    part by part."""
+
+    def __init__(self, P):
+        self._P = P
+
+    def __getattr__(self, name):
+        return getattr(self._P, name)
+
+    @staticmethod
+    def _parts(line, out):
+        ls = line[5:].split(" || ")
+        os_ = (out if out is not None else "").split(" || ")
+        return ls, (os_ if len(os_) == len(ls) else None)
+
+    def oracle(self, line, out, mode):
+        if not line.startswith("PAIR "):
+            return self._P.oracle(line, out, mode)
+        ls, os_ = self._parts(line, out)
+        if os_ is None:
+            return "a line of %d commands does not give %d answers: %s" % (len(ls), len(ls), (out or "")[:60])
+        for i, (l, o) in enumerate(zip(ls, os_)):
+            v = self._P.oracle(l, o, mode)
+            if v:
+                return "command %d of %d executed in a row by one thread: %s" % (i + 1, len(ls), v)
+        return None
+
+    def same(self, line, io, mo):
+        if not line.startswith("PAIR "):
+            return self._P.same(line, io, mo)
+        ls, ios = self._parts(line, io)
+        _, mos = self._parts(line, mo)
+        if ios is None or mos is None:
+            return False
+        return all(a == b or self._P.same(l, a, b) for l, a, b in zip(ls, ios, mos))
+
+    def classify(self, line, out):
+        if not line.startswith("PAIR "):
+            return self._P.classify(line, out)
+        ls, os_ = self._parts(line, out)
+        return "PAIR:" + self._P.classify(ls[-1], os_[-1] if os_ else out)
+
+    def nontrivial(self, line, out):
+        if not line.startswith("PAIR "):
+            return self._P.nontrivial(line, out)
+        ls, os_ = self._parts(line, out)
+        return os_ is not None and any(self._P.nontrivial(l, o) for l, o in zip(ls, os_))
+
+    def known_class(self, line, out):
+        if not hasattr(self._P, "known_class"):
+            return None
+        if not line.startswith("PAIR "):
+            return self._P.known_class(line, out)
+        ls, os_ = self._parts(line, out)
+        for l, o in zip(ls, os_ or []):
+            c = self._P.known_class(l, o)
+            if c:
+                return c
+        return None
+
+
 def run_property(P, pid, tier, seed, replay):
+    P = PairAware(P)
     canon = getattr(P, "canon", default_canon)
     t0 = time.time()
     rng = vlib.Rng(seed)
@@ -152,7 +216,7 @@ def run_property(P, pid, tier, seed, replay):
                 disagreements.append({"mode": mode, "case_line": line, "implementation": io, "model": mo})
             v = P.oracle(line, io, mode)
             if v:
-                cls = P.known_class(line, io) if hasattr(P, "known_class") else None
+                cls = P.known_class(line, io)
                 if cls and any(k.get("class") == cls for k in known):
                     known_seen[cls] += 1
                 else:
@@ -191,7 +255,7 @@ def run_property(P, pid, tier, seed, replay):
             for line, io in zip(extra, impl):
                 v = P.oracle(line, io, mode)
                 if v:
-                    cls = P.known_class(line, io) if hasattr(P, "known_class") else None
+                    cls = P.known_class(line, io)
                     if cls and any(k.get("class") == cls for k in known):
                         known_seen[cls] += 1
                     else:
